@@ -32,7 +32,10 @@ def run_property(prop, tier, only=None):
         P = Program(tag=tag, std=std, defs=defs)
         ctx = core.Ctx(prop, tier, P, CallGraph(P), config=std + (' ' + ' '.join('-D' + d for d in defs) if defs else ''))
         mod.run(ctx)
-        ctx.verify_minimums()
+        try:
+            ctx.verify_minimums()
+        except AnalysisBroken as e:
+            ctx.broken = str(e)      # reported as exit 2 unless a violation was found anyway
         ctxs.append(ctx)
     # cross-configuration agreement: same verdict per (rule, construct)
     if len(ctxs) > 1:
@@ -113,9 +116,13 @@ def main():
                             extra=dict(stats={c.config: c.stats for c in ctxs}))
         print('%s %s: %d rule instances, %d hold, %d known finding(s), %d violation(s) [%.1fs]' % (
             prop, tier, n, d, len(known_hits), len(viol), time.time() - t0))
-    if not a.keep:
-        pass
-    return 1 if viol else 0
+    if viol:
+        return 1
+    broken = [getattr(c, 'broken', None) for c in ctxs if getattr(c, 'broken', None)]
+    if broken:
+        print('ANALYSIS-BROKEN property=%s: %s' % (prop, broken[0]))
+        return 2
+    return 0
 
 
 if __name__ == '__main__':
